@@ -17,6 +17,14 @@ CHECKS = {
             "technique": "TLA+ spec (Score2.tla, exact bignum arithmetic) + TLC trace validation of recorded score tables",
             "text": "Score tables recorded from the working tree (all 729 base x 100 temporal spellings, every base x requirement triple x seeded temporal/environmental cases, the Not-Defined table; thorough: the full 18.9 M quotient) judged by TLC against the exact TLA+ transcription of the v2 guide equations including None-ness of undefined groups.",
             "note": TB},
+    "C14": {"mod": "props.mono", "ref": "DESIGN.md 5 C14",
+            "technique": "TLA+ severity-order tables + TLC relation-only trace validation of recorded score tables (no oracle)",
+            "text": "TLC first checks on the specification's own score functions that the standards are monotone exactly where C14 claims (and derives the v3.0 exemption); then every pair of recorded implementation scores one severity step apart inside the score tables (quick: ~10^7 comparisons; thorough: all pairs of the complete v4 quotient in two transposed layouts) is compared, without consulting any expected score.",
+            "note": "trusted: TLC; the severity ranks in spec/Tables*.tla; canonical spellings make neighbours differ in exactly one spelled metric"},
+    "C09": {"mod": "props.repr09", "ref": "DESIGN.md 5 C09",
+            "technique": "TLA+ spec of score text grammar and official severity bands + TLC trace validation of recorded observations",
+            "text": "For every vector of the score tables (every score value that arises from real vectors) the driver records repr(score), its type, and the severity from severities(), the JSON output and the v4 attribute; TLC judges every distinct observation against the score-text grammar and the official bands (TraceRepr.tla). Evidence lists which band edges were actually produced per version and slot.",
+            "note": "trusted: TLC; the band tables in spec/Api.tla; CPython repr(float)"},
 }
 
 NOT_APPLICABLE = []
